@@ -1,6 +1,6 @@
 #!/usr/bin/env python3
 ''' Confirm a sub-agent's seeded change in its scratch worktree and import it as /verif/seeded/<id>/.
-usage: tools/import_seed.py Cnn K    (reads /tmp/seed/out-Cnn/changeK.{diff,md} and changeK_demo.py, worktree /tmp/seed/Cnn)
+usage: tools/import_seed.py Cnn K [prefix [id-offset]]   (reads /tmp/seed/out-Cnn/changeK.{diff,md} and changeK_demo.py, worktree /tmp/seed/Cnn)
 Confirmation done here, by us: the patch applies to the current /repo HEAD, the pinned suite still gives the baseline
 result, the demonstration exits 0 on the clean tree and non-zero on the changed tree.
 '''
@@ -12,9 +12,11 @@ import subprocess
 import sys
 
 prop, num = sys.argv[1], sys.argv[2]
-out = '/tmp/seed/out-%s' % prop
+prefix = sys.argv[3] if len(sys.argv) > 3 else 'out'      # 'out' = first round, 'r2' = second round ...
+offset = int(sys.argv[4]) if len(sys.argv) > 4 else 0     # id = Cnn-(num + offset)
+out = '/tmp/seed/%s-%s' % (prefix, prop)
 wt = '/tmp/seed/%s' % prop
-sid = '%s-%s' % (prop, num)
+sid = '%s-%d' % (prop, int(num) + offset)
 dest = os.path.join(os.path.dirname(os.path.dirname(os.path.abspath(__file__))), 'seeded', sid)
 diff = os.path.join(out, 'change%s.diff' % num)
 demo = os.path.join(out, 'change%s_demo.py' % num)
